@@ -175,3 +175,113 @@ Definition rsp_fc_table_model : fc_variant_table :=
       [RspReadCoils []; RspReadDiscreteInputs []; RspWriteSingleCoil 0 false; RspWriteMultipleCoils 0 0; RspReadInputRegisters [];
        RspReadHoldingRegisters []; RspWriteSingleRegister 0 0; RspWriteMultipleRegisters 0 0; RspReportServerId 0 false [];
        RspMaskWriteRegister 0 0 0; RspReadWriteMultipleRegisters []; RspCustom 0 []].
+
+(* ---- the PDU encoders (encode_request_pdu / encode_response_pdu) as PUT PROGRAMS: per variant, the sequence of
+   buffer writes the Rust arm performs, over the variant's positional fields ---- *)
+Inductive fval := FvN (n : N) | FvB (b : bool) | FvBits (l : list bool) | FvWords (l : list N) | FvBytes (l : list N).
+Inductive pexp :=
+| EArg (i : nat)               (* field (dereferenced)                   *)
+| ECoil (i : nat)              (* bool_to_coil of the field              *)
+| ERun (i : nat)               (* if field { 0xFF } else { 0x00 }        *)
+| ELen16 (i : nat)             (* u16_len(field.len())                    *)
+| EPacked8 (i : nat)           (* u8_len(packed_coils_size(field))        *)
+| ELen2x8 (i : nat)            (* u8_len(field.len() * 2)                 *)
+| E2PlusLen8 (i : nat).        (* 2 + u8_len(field.len())   (u8 addition) *)
+Inductive put :=
+| PFc                          (* buf.put_u8(self.function_code().value()) *)
+| PU8 (e : pexp) | PU16 (e : pexp)
+| PCoils (i : nat)             (* encode_packed_coils(buf, field)          *)
+| PWords (i : nat)             (* for w in field: buf.put_u16 of w        *)
+| PSlice (i : nat).            (* buf.put_slice(field)                     *)
+Definition enc_table := list (list N * list put).     (* (variant name, program) *)
+
+Fixpoint lookup_prog (t : enc_table) (n : list N) : option (list put) :=
+  match t with
+  | [] => None
+  | (n', p) :: t' => if leqb n n' then Some p else lookup_prog t' n
+  end.
+Definition expand_progs (t : enc_table) : list (option (list put)) := map (lookup_prog t) variant_names.
+
+Definition fv_len (v : option fval) : outcome N :=
+  match v with
+  | Some (FvBits l) => Val (len l) | Some (FvWords l) => Val (len l) | Some (FvBytes l) => Val (len l)
+  | _ => Fail KInvalidInput        (* an ill-typed program: no encoder of the code or the model answers this *)
+  end.
+
+Definition eval_pexp (m : mode) (fs : list fval) (e : pexp) : outcome N :=
+  match e with
+  | EArg i => match nth_error fs i with Some (FvN n) => Val n | _ => Fail KInvalidInput end
+  | ECoil i => match nth_error fs i with Some (FvB b) => Val (bool_to_coil b) | _ => Fail KInvalidInput end
+  | ERun i => match nth_error fs i with Some (FvB b) => Val (if b then 0xFF else 0x00) | _ => Fail KInvalidInput end
+  | ELen16 i => n <- fv_len (nth_error fs i) ;; u16_len m n
+  | EPacked8 i => n <- fv_len (nth_error fs i) ;; u8_len m ((n + 7) / 8)
+  | ELen2x8 i => n <- fv_len (nth_error fs i) ;; u8_len m (n * 2)
+  | E2PlusLen8 i =>
+      n <- fv_len (nth_error fs i) ;; c <- u8_len m n ;;
+      if 255 <? 2 + c then (if dbg m then Panic else Val ((2 + c) mod 256)) else Val (2 + c)
+  end.
+
+Definition run_put (m : mode) (fc : N) (fs : list fval) (p : put) : outcome (list N) :=
+  match p with
+  | PFc => Val [fc]
+  | PU8 e => v <- eval_pexp m fs e ;; Val [v]
+  | PU16 e => v <- eval_pexp m fs e ;; Val (be16 v)
+  | PCoils i => match nth_error fs i with Some (FvBits l) => Val (pack_coils l) | _ => Fail KInvalidInput end
+  | PWords i => match nth_error fs i with Some (FvWords l) => Val (be16s l) | _ => Fail KInvalidInput end
+  | PSlice i => match nth_error fs i with Some (FvBytes l) => Val l | _ => Fail KInvalidInput end
+  end.
+
+Fixpoint run_puts (m : mode) (fc : N) (fs : list fval) (ps : list put) : outcome (list N) :=
+  match ps with
+  | [] => Val []
+  | p :: ps' => a <- run_put m fc fs p ;; b <- run_puts m fc fs ps' ;; Val (a ++ b)
+  end.
+
+Definition run_enc (t : enc_table) (m : mode) (name : list N) (fc : N) (fs : list fval) : option (outcome (list N)) :=
+  option_map (run_puts m fc fs) (lookup_prog t name).
+
+Definition req_fields (r : request) : list fval :=
+  match r with
+  | ReqReadCoils a q | ReqReadDiscreteInputs a q | ReqReadInputRegisters a q | ReqReadHoldingRegisters a q => [FvN a; FvN q]
+  | ReqWriteSingleCoil a b => [FvN a; FvB b]
+  | ReqWriteMultipleCoils a bs => [FvN a; FvBits bs]
+  | ReqWriteSingleRegister a w => [FvN a; FvN w]
+  | ReqWriteMultipleRegisters a ws => [FvN a; FvWords ws]
+  | ReqReportServerId => []
+  | ReqMaskWriteRegister a x y => [FvN a; FvN x; FvN y]
+  | ReqReadWriteMultipleRegisters ra rq wa ws => [FvN ra; FvN rq; FvN wa; FvWords ws]
+  | ReqCustom fc d => [FvN fc; FvBytes d]
+  end.
+Definition rsp_fields (r : response) : list fval :=
+  match r with
+  | RspReadCoils bs | RspReadDiscreteInputs bs => [FvBits bs]
+  | RspReadInputRegisters ws | RspReadHoldingRegisters ws | RspReadWriteMultipleRegisters ws => [FvWords ws]
+  | RspWriteSingleCoil a b => [FvN a; FvB b]
+  | RspWriteMultipleCoils a q | RspWriteMultipleRegisters a q => [FvN a; FvN q]
+  | RspWriteSingleRegister a w => [FvN a; FvN w]
+  | RspReportServerId id run d => [FvN id; FvB run; FvBytes d]
+  | RspMaskWriteRegister a x y => [FvN a; FvN x; FvN y]
+  | RspCustom fc d => [FvN fc; FvBytes d]
+  end.
+
+Definition req_enc_prog_model : enc_table :=
+  [(s2l "ReadCoils", [PFc; PU16 (EArg 0); PU16 (EArg 1)]); (s2l "ReadDiscreteInputs", [PFc; PU16 (EArg 0); PU16 (EArg 1)]);
+   (s2l "ReadInputRegisters", [PFc; PU16 (EArg 0); PU16 (EArg 1)]); (s2l "ReadHoldingRegisters", [PFc; PU16 (EArg 0); PU16 (EArg 1)]);
+   (s2l "WriteSingleCoil", [PFc; PU16 (EArg 0); PU16 (ECoil 1)]);
+   (s2l "WriteMultipleCoils", [PFc; PU16 (EArg 0); PU16 (ELen16 1); PU8 (EPacked8 1); PCoils 1]);
+   (s2l "WriteSingleRegister", [PFc; PU16 (EArg 0); PU16 (EArg 1)]);
+   (s2l "WriteMultipleRegisters", [PFc; PU16 (EArg 0); PU16 (ELen16 1); PU8 (ELen2x8 1); PWords 1]);
+   (s2l "ReportServerId", [PFc]);
+   (s2l "MaskWriteRegister", [PFc; PU16 (EArg 0); PU16 (EArg 1); PU16 (EArg 2)]);
+   (s2l "ReadWriteMultipleRegisters", [PFc; PU16 (EArg 0); PU16 (EArg 1); PU16 (EArg 2); PU16 (ELen16 3); PU8 (ELen2x8 3); PWords 3]);
+   (s2l "Custom", [PFc; PSlice 1])].
+Definition rsp_enc_prog_model : enc_table :=
+  [(s2l "ReadCoils", [PFc; PU8 (EPacked8 0); PCoils 0]); (s2l "ReadDiscreteInputs", [PFc; PU8 (EPacked8 0); PCoils 0]);
+   (s2l "ReadInputRegisters", [PFc; PU8 (ELen2x8 0); PWords 0]); (s2l "ReadHoldingRegisters", [PFc; PU8 (ELen2x8 0); PWords 0]);
+   (s2l "ReadWriteMultipleRegisters", [PFc; PU8 (ELen2x8 0); PWords 0]);
+   (s2l "WriteSingleCoil", [PFc; PU16 (EArg 0); PU16 (ECoil 1)]);
+   (s2l "WriteMultipleCoils", [PFc; PU16 (EArg 0); PU16 (EArg 1)]); (s2l "WriteMultipleRegisters", [PFc; PU16 (EArg 0); PU16 (EArg 1)]);
+   (s2l "ReportServerId", [PFc; PU8 (E2PlusLen8 2); PU8 (EArg 0); PU8 (ERun 1); PSlice 2]);
+   (s2l "WriteSingleRegister", [PFc; PU16 (EArg 0); PU16 (EArg 1)]);
+   (s2l "MaskWriteRegister", [PFc; PU16 (EArg 0); PU16 (EArg 1); PU16 (EArg 2)]);
+   (s2l "Custom", [PFc; PSlice 1])].
